@@ -1,4 +1,4 @@
-import FluentProofs.ParserLocalSimLeaf
+import FluentProofs.ParserLocalSimLeaf2
 import FluentProofs.ParserLocalSimGe
 /-!
 # Locality of the parser, SIMULATION family, part 3a: one-source auxiliaries of the expression step lemmas
